@@ -33,6 +33,8 @@ type forkDetector interface {
 	ResetFork()
 	ResetProbableHighestNonce()
 	SetRollBackNonce(nonce uint64)
+	RestoreToGenesis()
+	SetFinalToLastCheckpoint()
 }
 
 type rig struct {
@@ -147,6 +149,8 @@ func history(r *vk.Run, c *vk.Case, meta bool) {
 	used := map[string]bool{}
 	forks, stuck, rollbacks, finalAdv := 0, 0, 0, 0
 	lastFinal := uint64(0)
+	hwm := uint64(0) // highest final nonce ever reported since the last RestoreToGenesis
+	regressReported := false
 	nOps := 20 + rng.Intn(60)
 
 	lastNonce := func() uint64 {
@@ -171,6 +175,17 @@ func history(r *vk.Run, c *vk.Case, meta bool) {
 			finalAdv++
 		}
 		lastFinal = final
+		if final < hwm && !regressReported {
+			regressReported = true
+			r.Violation(c.Idx, "final-nonce-regressed", fmt.Sprintf("%s: highest final nonce went from %d back to %d after %s (no RestoreToGenesis, no final block removed)", kind, hwm, final, op),
+				map[string]interface{}{"kind": kind, "trace": trace, "previous_final": hwm, "final": final})
+		}
+		if final > hwm {
+			hwm = final
+		}
+		if final < hwm {
+			final = hwm // O1 is judged against the highest nonce that was ever declared final
+		}
 		if !fi.IsDetected {
 			return
 		}
@@ -218,6 +233,47 @@ func history(r *vk.Run, c *vk.Case, meta bool) {
 		x := rng.Intn(100)
 		desc := ""
 		switch {
+		case x < 2 || (op == 0 && rng.Chance(1, 4)):
+			// node restart as storageBootstrapper.applyBootInfos does it with one boot info: fresh state, the last
+			// committed block as processed (with the self-notarized headers stored with it), competitors that arrive
+			// meanwhile, then SetFinalToLastCheckpoint
+			g.fd.RestoreToGenesis()
+			hwm, lastFinal = 0, 0
+			n := lastNonce()
+			if n == 0 || rng.Chance(1, 3) {
+				n = uint64(2 + rng.Intn(30))
+			}
+			if uint64(g.round.RoundIndex) < n+2 {
+				g.round.RoundIndex = int64(n) + 2 + int64(rng.Intn(4))
+			}
+			R = uint64(g.round.RoundIndex)
+			h := newHdr(n, R, epoch, rng.Bytes(32))
+			var notar []hdr
+			if !meta && rng.Bool() {
+				notar = []hdr{newHdr(n-1, R-1, epoch, rng.Bytes(32))}
+			}
+			e := g.add(h, process.BHProcessed, notar)
+			chain = nil
+			if e == nil {
+				chain = []hdr{h}
+			}
+			stored := 0
+			for k := rng.Intn(3); k > 0; k-- {
+				cn := n - uint64(rng.Intn(2))
+				lo := int64(cn)
+				cr := lo + int64(rng.Intn(int(int64(R)-lo)+1)) // a round in [nonce, R]: valid against the genesis checkpoint, not above mine
+				cpt := newHdr(cn, uint64(cr), epoch, rng.Bytes(32))
+				if rng.Chance(1, 4) {
+					cpt.Hash[0] = 0
+				}
+				if g.add(cpt, process.BHReceived, nil) == nil {
+					stored++
+				}
+			}
+			g.fd.SetFinalToLastCheckpoint()
+			desc = fmt.Sprintf("restart: RestoreToGenesis, processed n%d r%d %s notar=%d -> %s, %d stored competitors, SetFinalToLastCheckpoint", h.Nonce, h.Round, h.HashX, len(notar), errKind(e), stored)
+			r.Count("restarts", 1)
+			used["restart"] = true
 		case x < 28:
 			g.round.RoundIndex += int64(1 + rng.Intn(3))
 			if rng.Chance(1, 25) {
@@ -295,8 +351,8 @@ func history(r *vk.Run, c *vk.Case, meta bool) {
 			r.Count("notarized", 1)
 			used["notarized"] = true
 		case x < 93:
-			if len(chain) == 0 {
-				continue
+			if len(chain) == 0 || lastNonce() <= g.fd.GetHighestFinalBlockNonce() {
+				continue // final blocks are never rolled back
 			}
 			h := chain[len(chain)-1]
 			g.fd.RemoveHeader(h.Nonce, append([]byte(nil), h.Hash...))
@@ -512,11 +568,12 @@ func orderCase(r *vk.Run, c *vk.Case, meta bool) {
 func main() {
 	logger.SetLogLevel("*:NONE")
 	r := vk.Start("C20")
-	r.Rule("even cases: a random history of 20-80 operations on a shard or meta fork detector (round ticks incl. long silences, processed blocks extending the chain with/without notarization of the previous ones, received competitors for nonces final..last+2 with rounds around the processed block's round / low hashes / a later epoch, notarizations with my or a competing hash, RemoveHeader, ResetFork, ResetProbableHighestNonce, SetRollBackNonce, and rollbacks after a detected fork); CheckFork after every operation (O1). odd cases: a fixed processed prefix, 2-5 competing received headers (forced round/nonce ties, extreme hashes, later epoch), optional processed suffix, replayed on a fresh detector for every arrival order (<= 120) (O2). Non-trivial: O1 history with at least one signal, O2 scenario with >= 2 accepted competitors; shape = operation kinds used + bucketed signal counts, resp. (m, accepted, distinct nonces, ties, suffix, detected).")
+	r.Rule("even cases: a random history of 20-80 operations on a shard or meta fork detector (round ticks incl. long silences, processed blocks extending the chain with/without notarization of the previous ones, received competitors for nonces final..last+2 with rounds around the processed block's round / low hashes / a later epoch, notarizations with my or a competing hash, RemoveHeader, ResetFork, ResetProbableHighestNonce, SetRollBackNonce, rollbacks after a detected fork, and node restarts as storageBootstrapper.applyBootInfos performs them: RestoreToGenesis, the last committed block as processed with its stored self-notarized headers, competitors at nonces <= that block with rounds <= its round, SetFinalToLastCheckpoint, then processed blocks that are not notarized); CheckFork after every operation (O1, judged against the highest final nonce ever reported since the last RestoreToGenesis; that nonce must never go backwards). odd cases: a fixed processed prefix, 2-5 competing received headers (forced round/nonce ties, extreme hashes, later epoch), optional processed suffix, replayed on a fresh detector for every arrival order (<= 120) (O2). Non-trivial: O1 history with at least one signal, O2 scenario with >= 2 accepted competitors; shape = operation kinds used + bucketed signal counts, resp. (m, accepted, distinct nonces, ties, suffix, detected).")
 	r.Assume("a header hash identifies the header (competitors have distinct hashes unless they are the processed block itself)",
 		"timestamps are consistent with the genesis time; the black list is a stub that never lists anything",
 		"a signal with IsDetected and Nonce == MaxUint64 is the 'consensus stuck' signal; it is checked against the necessary conditions recomputed from the mock clock (trigger round, no ResetFork in this round, more than MaxRoundsWithoutCommittedBlock rounds since genesis)",
-		"a pending SetRollBackNonce is consumed by the first non-stuck CheckFork and is exempt from O1")
+		"a pending SetRollBackNonce is consumed by the first non-stuck CheckFork and is exempt from O1",
+		"final blocks are never removed (RemoveHeader is only called for nonces above the highest final nonce), and SetFinalToLastCheckpoint is only used in the restart sequence on a freshly reset detector: under these two restrictions the highest final nonce is monotone on the unchanged tree (computeFinalCheckpoint only stores a candidate backed by a processed-and-notarized entry; the meta detector only moves to the previous checkpoint)")
 	r.MinShapes(30)
 	n := r.N(6000, 400000)
 	r.Parallel(n, func(c *vk.Case) {
